@@ -13,9 +13,14 @@
 //
 // Oracle: reference model map id -> (vector, payload, live) and an independent float64 cosine.
 //
-// Build: needs ONE extra overlay entry on top of the instrumentation overlay (deterministic k-means++
-// seed), generated by mc/cmd/c33/mkoverlay.py; `//go:debug randseednop=0` below makes the (overlaid)
-// rand.Seed(vhook.Now()) effective. main() self-tests both and fails loudly (exit 2) otherwise.
+// Build: mc/cmd/c33/build.sh. On top of the instrumentation overlay it needs two determinism patches that
+// mc/cmd/c33/mkoverlay.py applies to COPIES of ai/vector files (k-means++ seed time.Now() -> vhook.Now();
+// Optimize phase 2 iterates a stack-allocated Go map -> iterate its keys in ascending order);
+// `//go:debug randseednop=0` below makes the patched rand.Seed(vhook.Now()) effective. main() self-tests the
+// plumbing (seed, k-means, and whole sequences run twice) and fails loudly (exit 2) otherwise.
+// Aids: --replay <file> [C33_DUMP=1 dumps the index B-trees after every step, C33_NO_MID_READS=1 drops the
+// read blocks between the mutators]; C33_ONLY=<families> / C33_MODES=<modes> restrict a run;
+// C33_NPROC, C33_BUDGET_S. build.sh <mutation,...> builds a mutant / fix-validation binary in /tmp.
 //
 //go:debug randseednop=0
 package main
@@ -257,8 +262,9 @@ func families(thorough bool) []family {
 			{"core3", core, 3, []string{"dynamic", "counted"}, []int{0}},
 			{"core2-buffer", core, 2, []string{"buildonce+buffer", "counted+buffer", "sealed+buildonce"}, []int{0}},
 			{"ext2", ext, 2, []string{"dynamic", "counted"}, []int{0}},
-			// deeper sequences over four members (one id; upsert, duplicate-id batch, delete, optimize)
-			{"lite4", []Op{up("a", 0, "x"), batchDupA, del("a"), optimize}, 4, []string{"counted"}, []int{0}},
+			// deeper sequences over three members each: duplicate-id batch, delete + (optimize | upsert of another id)
+			{"lite4-optimize", []Op{batchDupA, del("a"), optimize}, 4, []string{"counted"}, []int{0}},
+			{"lite4-upsert", []Op{batchDupA, del("a"), up("b", 3, "x")}, 4, []string{"counted"}, []int{0}},
 			{"lite3-buffer", []Op{up("a", 0, "x"), batchAB, del("a"), optimize}, 3, []string{"buildonce+buffer", "sealed+buildonce"}, []int{0}},
 			{"full2", full, 2, []string{"dynamic"}, []int{0}},
 			{"full1", full, 1, []string{"counted", "buildonce+buffer"}, []int{0}},
@@ -953,7 +959,7 @@ func (w *worker) runSeq(mode Mode, seed int, seq []Op) (violated bool) {
 }
 
 // enumerate runs every sequence of the family of EXACTLY the given length that starts with the alphabet
-// members first[, second] (second < 0: any). The parent runs the lengths in increasing order, so the replay
+// members first[, second] (< 0: any). The parent runs the lengths in increasing order, so the replay
 // kept for a signature is one of the shortest sequences of its class.
 func (w *worker) enumerate(fams []family, fi int, mode Mode, seed int, length, first, second int, deadline time.Time) {
 	f := fams[fi]
@@ -976,9 +982,12 @@ func (w *worker) enumerate(fams []family, fi int, mode Mode, seed int, length, f
 			rec(append(append([]Op(nil), seq...), o))
 		}
 	}
-	prefix := []Op{f.Alphabet[first]}
-	if second >= 0 {
-		prefix = append(prefix, f.Alphabet[second])
+	var prefix []Op
+	if first >= 0 {
+		prefix = append(prefix, f.Alphabet[first])
+		if second >= 0 {
+			prefix = append(prefix, f.Alphabet[second])
+		}
 	}
 	rec(prefix)
 }
@@ -1172,8 +1181,8 @@ func main() {
 	if onlyFam != "" || onlyMode != "" {
 		run.NotExhaustive("C33_ONLY/C33_MODES set: restricted run")
 	}
-	// rounds[l] = jobs that run the sequences of length l (a job = one first op, or one first+second op when
-	// that would exceed 400 sequences)
+	// rounds[l] = jobs that run the sequences of length l (a job = all of them when there are <= 150, else one
+	// first op, or one first+second op when a first op alone would exceed 400 sequences)
 	rounds := map[int][]string{}
 	maxLen := 0
 	for fi, f := range fams {
@@ -1193,6 +1202,11 @@ func main() {
 					for i := 1; i < l; i++ {
 						perFirst *= len(f.Alphabet)
 					}
+					if perFirst*len(f.Alphabet) <= 150 { // few sequences: one job
+						b, _ := json.Marshal(jobT{fi, m, s, l, -1, -1})
+						rounds[l] = append(rounds[l], string(b))
+						continue
+					}
 					for first := range f.Alphabet {
 						if perFirst > 400 && l >= 2 {
 							for second := range f.Alphabet {
@@ -1208,9 +1222,10 @@ func main() {
 			}
 		}
 	}
-	budget := 100 * time.Second
+	// safety valve for an overloaded machine only (expected: quick ~1 min, thorough ~8 min on 16 idle cores)
+	budget := 8 * time.Minute
 	if thorough {
-		budget = 14 * time.Minute
+		budget = 40 * time.Minute
 	}
 	if b := os.Getenv("C33_BUDGET_S"); b != "" {
 		var s int
